@@ -139,6 +139,7 @@ fn handle_put<R: Read, W: Write>(
     let tmp = tmp_of(&dst);
     // Stream exactly `len` bytes to the temp file + hash them (never buffer whole).
     let mut hasher = blake3::Hasher::new();
+    let mut received: u64 = 0;
     {
         let mut tf = std::fs::File::create(&tmp)?;
         let mut limited = r.take(len);
@@ -148,10 +149,16 @@ fn handle_put<R: Read, W: Write>(
             if n == 0 {
                 break;
             }
+            received += n as u64;
             hasher.update(&buf[..n]);
             tf.write_all(&buf[..n])?;
         }
         tf.sync_all()?;
+    }
+    // The stream ended before the declared length: never commit a short write.
+    if received != len {
+        let _ = std::fs::remove_file(&tmp);
+        return write_frame(w, &Response::Error("content length mismatch".into()));
     }
     // Integrity: the streamed content must match the hash the client claimed.
     if *hasher.finalize().as_bytes() != hash {
